@@ -36,3 +36,7 @@ package data
 
 //@ func NewContainer
 //@   ensures result != nil && fresh(result)
+
+//@ func cloneItemAwareMap
+//@   prop C17
+//@   requires *out != nil
